@@ -98,7 +98,10 @@ def random_script(rng, n, wrap_octets=False):
             send(st, (st.pos + 1) % 65536, st.ts, ln, k=k)
             st.pos += k
         elif r < 0.94:
-            steps.append(ev("report", t=now))
+            back = 0
+            if rng.random() < 0.12:      # the report instant lies BEFORE the newest packet was sent (a packet written while
+                back = rng.choice([g, 5 * g, 40, 1000])     # the tick was in progress; a clock that stepped back)
+            steps.append(ev("report", t=max(now - back, 0)))
         elif r < 0.97:
             steps.append(ev("report", t=now))
             steps.append(ev("unbind", s=st.s))
